@@ -83,8 +83,9 @@ def real_of(kind, p, sources):
   return Stream(src)
 
 
-def tv_apply(num, den, x):
-  """Time-varying recurrence on coefficient sequences {delay: list}."""
+def tv_apply(num, den, x, zero=None):
+  """Time-varying recurrence on coefficient sequences {delay: list}; samples before the input
+  (x[n-k], y[n-k] for n < k) are the zero value."""
   y = []
   for n in range(len(x)):
     cs = [s[n] for s in list(num.values()) + list(den.values())]
@@ -94,9 +95,13 @@ def tv_apply(num, den, x):
     for k, s in num.items():
       if n - k >= 0:
         acc = acc + s[n] * x[n - k]
+      elif zero is not None:
+        acc = acc + s[n] * zero
     for k, s in den.items():
       if k >= 1 and n - k >= 0:
         acc = acc - s[n] * y[n - k]
+      elif k >= 1 and zero is not None:
+        acc = acc - s[n] * zero
     y.append(acc / den[0][n])
   return y
 
@@ -121,7 +126,7 @@ def ref_polys(kinds, T):
 def check_run(filt, sources, exp, x, key, nontriv, zero=None):
   """Consume the filter output step by step, checking values and pull counts."""
   try:
-    out = filt(list(x), zero=Q(0))
+    out = filt(list(x), zero=Q(0) if zero is None else zero)
     for s in sources:
       if s.attempts:
         return bad(key + ":pulls-at-call", "calling the filter must not read a coefficient stream: it is read once "
@@ -192,13 +197,16 @@ def run_shape(case):
     # all-zero filter without looking at a0 (recorded in DESIGN.md as an observation; a
     # filter without any term is C04's special case, not a time-varying shape)
     return R(None, False, "degenerate-zero-filter")
-  exp = tv_apply(num, den, x)
+  # the zero value (what stands for the samples before the input) alternates between 0 and others
+  zsel = (len(kinds[0]) + len(kinds[1]) + len(kinds[3]) + len(kinds[4]) + (route == "dict")) % 3
+  zero = [None, Q(3), sym("zr")][zsel]
+  exp = tv_apply(num, den, x, zero)
   sources = []
   try:
     filt = build_filter(kinds, route, sources)
   except Exception as exc:
     return bad("tv:build:" + type(exc).__name__, "building the filter raised", None, str(exc)[:200], nstream > 0)
-  v = check_run(filt, sources, exp, x, "tv", nstream > 0)
+  v = check_run(filt, sources, exp, x, "tv", nstream > 0, zero)
   if v is not None:
     return v
   return R(None, nstream > 0, (nstream, len(exp)))
